@@ -23,10 +23,13 @@
 
 namespace wmm
 {
-constexpr int MAXT = 3; // thread 0 = init/main, 1 = producer, 2 = consumer
+#ifndef VF_MAXT
+#define VF_MAXT 3
+#endif
+constexpr int MAXT = VF_MAXT; // thread 0 = init/main, 1 = producer, 2 = consumer (, 3 = second producer in the whole-system variant)
 struct VC
 {
-  uint32_t c[MAXT]{0, 0, 0};
+  uint32_t c[MAXT]{};
   bool leq(VC const& o) const
   {
     for (int i = 0; i < MAXT; ++i)
@@ -73,6 +76,10 @@ struct Thread
   int wait_idx[2]{-1, -1};
   bool must_progress{false};
   bool progressed{false};
+  // the last operation, for spin detection: a relaxed load that reads the very message the thread's previous operation (also
+  // a relaxed load of the same location) read is an iteration of a spin loop (Spinlock::lock) and waits for a newer message
+  int last_load_id{-1}, last_load_idx{-1};
+  bool last_was_relaxed_load{false};
   std::function<void()> body;
 };
 
@@ -101,8 +108,12 @@ struct World
   bool allow_unordered_writers{false}; // harnesses whose locations legitimately have concurrent writers (read-modify-write
                                        // counters): every write then records its position in the modification order in
                                        // the writer's history, which keeps the history-based state key exact
-  int nthreads{3};
+  bool sc_only{false};     // every load reads the latest message (sequentially consistent interleavings only)
+  bool auto_spin{false};   // spin detection on (whole-system harness)
+  int nthreads{MAXT};
   int deviations{0};
+  int gen{0};
+  World() { static int g = 0; gen = ++g; }
 };
 
 extern World* W;
@@ -250,6 +261,7 @@ inline void do_store(int id, uint64_t v, std::memory_order o)
   if (rel) m.relview = T.view;
   L.mo.push_back(std::move(m));
   ++T.ops;
+  T.last_was_relaxed_load = false;
   T.hist += W->allow_unordered_writers ? "s@" + std::to_string(L.mo.size() - 1) + ";" : std::string("s;");
 }
 
@@ -292,12 +304,27 @@ inline uint64_t do_rmw(int id, F f, std::memory_order o)
   }
   L.mo.push_back(std::move(m));
   ++T.ops;
+  T.last_was_relaxed_load = false;
   T.hist += "r" + std::to_string(id) + ":" + std::to_string(idx) + ";";
   return prev.val;
 }
 
-inline uint64_t do_load(int id, std::memory_order o)
+inline void block_until_newer(int loc_a, int loc_b);
+
+// spin_candidate: the location has a one-byte enum type (in quill: the spinlock's state) - only there is a repeated identical
+// relaxed load taken for an iteration of a spin loop
+inline uint64_t do_load(int id, std::memory_order o, bool spin_candidate = false)
 {
+  if (spin_candidate && W->auto_spin && W->in_exec && W->cur != 0 && o == std::memory_order_relaxed)
+  {
+    Thread& S = W->th[W->cur];
+    if (S.last_was_relaxed_load && S.last_load_id == id && S.view[static_cast<size_t>(id)] == S.last_load_idx && !S.must_progress)
+    {
+      // second look at the same message with nothing in between: spinning. Wait for a newer message instead of re-reading.
+      block_until_newer(id, -1);
+      if (W->abort_exec) yield_to_main();
+    }
+  }
   sched_point();
   if (W->abort_exec && W->in_exec && W->cur != 0) yield_to_main();
   check_access(id, "load");
@@ -328,7 +355,7 @@ inline uint64_t do_load(int id, std::memory_order o)
     yield_to_main();
     return 0;
   }
-  if (W->latest_only || W->cur == 0)
+  if (W->latest_only || W->sc_only || W->cur == 0)
     idx = hi;
   else
   {
@@ -355,6 +382,16 @@ inline uint64_t do_load(int id, std::memory_order o)
   }
   T.clk.c[W->cur]++;
   ++T.ops;
+  T.last_was_relaxed_load = (o == std::memory_order_relaxed);
+  T.last_load_id = id;
+  T.last_load_idx = idx;
+  if (T.must_progress && W->auto_spin && T.progressed)
+  {
+    // a wait that was started by the spin / sleep rules ends with the first load that saw something new
+    T.must_progress = false;
+    T.progressed = false;
+    T.wait_loc[0] = T.wait_loc[1] = -1;
+  }
   T.hist += std::to_string(id) + ":" + std::to_string(idx) + ";";
   return m.val;
 }
@@ -363,7 +400,8 @@ inline uint64_t do_load(int id, std::memory_order o)
 inline int view_of(int id) { return W->th[W->cur].view[static_cast<size_t>(id)]; }
 
 // the calling thread cannot make progress until a message newer than what it has seen exists at one of the locations
-inline void block_until_newer(int loc_a, int loc_b = -1)
+inline void block_until_newer(int loc_a, int loc_b = -1);
+inline void block_until_newer(int loc_a, int loc_b)
 {
   Thread& T = W->th[W->cur];
   T.blocked = true;
@@ -401,13 +439,20 @@ class vf_atomic
 public:
   // construction is initialisation, not an atomic operation: no scheduling point; the initial value is a message that
   // carries the constructing thread's clock, so reading it without happens-before from the construction is detected
-  vf_atomic() noexcept : _id(wmm::reg_loc("atomic")) { wmm::init_loc(_id, 0); }
-  vf_atomic(T v) noexcept : _id(wmm::reg_loc("atomic")) { wmm::init_loc(_id, enc(v)); }
-  ~vf_atomic() { wmm::W->locs[static_cast<size_t>(_id)].dead = true; }
+  vf_atomic() noexcept : _id(wmm::reg_loc("atomic")), _gen(wmm::W->gen) { wmm::init_loc(_id, 0); }
+  vf_atomic(T v) noexcept : _id(wmm::reg_loc("atomic")), _gen(wmm::W->gen) { wmm::init_loc(_id, enc(v)); }
+  // (an object that outlives its execution - a process-wide singleton destroyed later - belongs to a world that is gone)
+  ~vf_atomic()
+  {
+    if (wmm::W && wmm::W->gen == _gen) wmm::W->locs[static_cast<size_t>(_id)].dead = true;
+  }
   vf_atomic(vf_atomic const&) = delete;
   vf_atomic& operator=(vf_atomic const&) = delete;
   void store(T v, std::memory_order o = std::memory_order_seq_cst) noexcept { wmm::do_store(_id, enc(v), o); }
-  T load(std::memory_order o = std::memory_order_seq_cst) const noexcept { return dec(wmm::do_load(_id, o)); }
+  T load(std::memory_order o = std::memory_order_seq_cst) const noexcept
+  {
+    return dec(wmm::do_load(_id, o, std::is_enum<T>::value && sizeof(T) == 1));
+  }
   operator T() const noexcept { return load(); }
   T exchange(T v, std::memory_order o = std::memory_order_seq_cst) noexcept
   {
@@ -441,5 +486,6 @@ private:
     return v;
   }
   int _id;
+  int _gen;
 };
 } // namespace std
